@@ -5,7 +5,11 @@ mod checks;
 mod rec;
 mod sch;
 mod schemes;
+mod mirror;
+mod pmut;
 mod scope;
+mod source;
+mod special;
 mod tr;
 mod util;
 
@@ -19,6 +23,9 @@ fn usage() -> ! {
 fn dispatch(prop: &str, rec: &mut Rec) {
     match prop {
         "C01" => checks::c01::run(rec),
+        "C02" => checks::c02::run(rec),
+        "C03" => checks::c03::run(rec),
+        "C05" => checks::c05::run(rec),
         _ => {
             eprintln!("unknown property {}", prop);
             std::process::exit(2)
